@@ -286,6 +286,9 @@ class PrefixExpression(FilterExpression):
         super().__init__()
 
     def __str__(self) -> str:
+        if isinstance(self.right, InfixExpression) and not self.right.logical:
+            # The prefix operator binds more tightly than comparison operators.
+            return f"{self.operator}({self.right})"
         return f"{self.operator}{self.right}"
 
     def __eq__(self, other: object) -> bool:
@@ -334,7 +337,14 @@ class InfixExpression(FilterExpression):
     def __str__(self) -> str:
         if self.logical:
             return f"({self.left} {self.operator} {self.right})"
-        return f"{self.left} {self.operator} {self.right}"
+        return f"{self._operand(self.left)} {self.operator} {self._operand(self.right)}"
+
+    @staticmethod
+    def _operand(expr: FilterExpression) -> str:
+        # Keep the grouping of a comparison used as an operand of a comparison.
+        if isinstance(expr, InfixExpression) and not expr.logical:
+            return f"({expr})"
+        return str(expr)
 
     def __eq__(self, other: object) -> bool:
         return (
@@ -443,6 +453,11 @@ class BooleanExpression(FilterExpression):
 
         if isinstance(expression, PrefixExpression):
             operand = self._canonical_string(expression.right, PRECEDENCE_PREFIX)
+            if (
+                isinstance(expression.right, InfixExpression)
+                and not expression.right.logical
+            ):
+                operand = f"({operand})"
             expr = f"!{operand}"
             return f"({expr})" if parent_precedence > PRECEDENCE_PREFIX else expr
 
@@ -532,7 +547,8 @@ class SelfPath(Path):
         self.volatile = True
 
     def __str__(self) -> str:
-        return "@" + str(self.path)[1:]
+        env = self.path.env
+        return env.self_token + str(self.path)[len(env.root_token) :]
 
     def evaluate(self, context: FilterContext) -> object:
         return NodeList(
@@ -604,8 +620,8 @@ class FilterContextPath(Path):
         self.volatile = False
 
     def __str__(self) -> str:
-        path_repr = str(self.path)
-        return "_" + path_repr[1:]
+        env = self.path.env
+        return env.filter_context_token + str(self.path)[len(env.root_token) :]
 
     def evaluate(self, context: FilterContext) -> object:
         return NodeList(
@@ -712,14 +728,15 @@ class FunctionExtension(FilterExpression):
 class CurrentKey(FilterExpression):
     """The key/property or index associated with the current object."""
 
-    __slots__ = ()
+    __slots__ = ("token",)
 
-    def __init__(self) -> None:
+    def __init__(self, token: str = "#") -> None:
         super().__init__()
         self.volatile = True
+        self.token = token
 
     def __str__(self) -> str:
-        return "#"
+        return self.token
 
     def __eq__(self, other: object) -> bool:
         return isinstance(other, CurrentKey)
